@@ -6,6 +6,9 @@ OBLIGATIONS = [
          bounds="arbitrary pre-state of the ~40 listed per-file/per-pass variables",
          assumes=["frame assumption: callees that build strings, symbols or CPU state (EnterIntSymbol, SetCPUByType, Reset*Defines, NLS date/time ...) do not touch the listed variables; their bodies are 'return nondet'",
                   "InitPass() (registered per-module initialisers) cut", "PCs/Phases arrays allocated by the harness"]),
+    dict(name="reset_parser", src="reset_pars.c", include=["asmpars.c"], units=["asmdef.c"], stubs=[], defs=["STRINGSIZE=16"], nobody_mode="nondet", unwind=12,
+         functions=["asmpars.c:AsmParsInit", "asmpars.c:SetMomSection"], timeout=600, bounds="arbitrary pre-state of radix, table roots, scope handles",
+         assumes=["frame assumption for callees outside asmpars.c"]),
 ]
 META = dict(outside=["the ~100 code generators' statics (InitPass callbacks, SwitchFrom)", "contents of macro/struct/define tables (heap)", "behaviour after a fatal error (exit)",
                      "that 'asl a b' equals 'asl a; asl b' end to end (needs whole assembler runs)"],
